@@ -346,6 +346,9 @@ func (g *c15gen) inst(class, typ, name string) *c15inst {
 	if sp.items {
 		if r.IntN(3) > 0 {
 			n := 1 + r.IntN(3)
+			if r.IntN(10) == 0 {
+				n = 10 + r.IntN(5) // indexed lists with two-digit indices ([10] sorts before [2] as text)
+			}
 			in.single = n == 1 && r.IntN(2) == 0
 			for i := 0; i < n; i++ {
 				it := c15item{}
